@@ -151,6 +151,53 @@ Theorem SrcTie_order_queue_by_trekker_order : forall ord planned_queue link_trek
 Proof. exact order_queue_by_trekker_order_src. Qed.
 Print Assumptions SrcTie_order_queue_by_trekker_order.
 
+(* mloda/core/prepare/resolve_links.py  LinkTrekker.order_links_by_frameworks.  The method ends with a call of
+   self.drop_dependency_in_case_of_circular_dependencies(), which is not translated (nested function, sets shared between
+   self.order and the loop variables): the callee is a PARAMETER of the generated definition.  For EVERY callee the method
+   is: self.order := PlannerL.olbf self.data self.order (the KeyError of self.order[k].add cannot happen), then the call. *)
+Theorem SrcTie_order_links_by_frameworks : forall (drop : PlannerL.trek -> res unit * PlannerL.trek) self,
+  LinkTrekker_order_links_by_frameworks drop self
+  = drop (PyObj.trek_set_order self (PlannerL.olbf (PlannerL.t_data self) (PlannerL.t_order self))).
+Proof. exact order_links_by_frameworks_src. Qed.
+Print Assumptions SrcTie_order_links_by_frameworks.
+
+(* with the callee as PlannerL models it (drop_model: drop_circular, None = the ValueError 'Link not found in data!') the
+   method is PlannerL.order_links_by_frameworks *)
+Theorem SrcTie_order_links_by_frameworks_model : forall self,
+  LinkTrekker_order_links_by_frameworks drop_model self
+  = match PlannerL.order_links_by_frameworks (PlannerL.t_data self) (PlannerL.t_order self) with
+    | Some o => (Ok tt, PyObj.trek_set_order self o)
+    | None => (Raise ValueError, PyObj.trek_set_order self (PlannerL.olbf (PlannerL.t_data self) (PlannerL.t_order self)))
+    end.
+Proof. exact order_links_by_frameworks_model. Qed.
+Print Assumptions SrcTie_order_links_by_frameworks_model.
+
+(* LinkTrekker.order_ordered_ids_by_relation (Optional[int] latest_position, pos_marker: Dict[int, Tuple[UUID, Set[UUID]]],
+   range, max, OrderedDict.move_to_end) IS PlannerL.reorder_rel, for every order whose keys are pairwise different (self.order
+   is a dict): it never raises (no KeyError, no ValueError of max) and leaves self.order = reorder_rel self.order *)
+Theorem SrcTie_order_ordered_ids_by_relation : forall self, NoDup (map fst (PlannerL.t_order self)) ->
+  LinkTrekker_order_ordered_ids_by_relation self
+  = (Ok tt, PyObj.trek_set_order self (PlannerL.reorder_rel (PlannerL.t_order self))).
+Proof. exact order_ordered_ids_by_relation_src. Qed.
+Print Assumptions SrcTie_order_ordered_ids_by_relation.
+
+(* LinkTrekker.get_ordered_data: for EVERY three callees it calls them in the order order_links_by_frameworks,
+   order_ordered_ids_by_relation, create_data_ordered, stops at the first that raises and returns self.data_ordered *)
+Theorem SrcTie_get_ordered_data : forall f1 f2 f3 self,
+  LinkTrekker_get_ordered_data f1 f2 f3 self
+  = seq_call f1 (seq_call f2 (seq_call f3 (fun s => (Ok (PlannerL.t_dor s), s)))) self.
+Proof. exact get_ordered_data_src. Qed.
+Print Assumptions SrcTie_get_ordered_data.
+
+(* with the callees as PlannerL models them it is PlannerL.get_ordered_data *)
+Theorem SrcTie_get_ordered_data_model : forall t,
+  match PlannerL.get_ordered_data t with
+  | PlannerL.Ok t' => LinkTrekker_get_ordered_data olbf_model reorder_model cdo_model t = (Ok (PlannerL.t_dor t'), t')
+  | PlannerL.Err _ => exists e s, LinkTrekker_get_ordered_data olbf_model reorder_model cdo_model t = (Raise e, s)
+  end.
+Proof. exact get_ordered_data_model. Qed.
+Print Assumptions SrcTie_get_ordered_data_model.
+
 (* non-vacuity: the regenerated definitions compute, on both sides of each decision *)
 Example SrcTie_examples :
   Index_is_a_part_of_ ["a"%string] ["a"%string; "b"%string] = Ok true /\
@@ -177,5 +224,13 @@ Example SrcTie_plan_examples :
     {| PlannerL.t_data := []; PlannerL.t_dor := []; PlannerL.t_order := [(0, [4])]%nat |}
   = [PlannerL.PG 7 [3]; PlannerL.PL (0, (0, 1)); PlannerL.PL (4, (1, 2))]%nat /\
   JoinStepCollection_similar_dependent_joins_uuids [((0, (0, 1)), []); ((4, (2, 3)), [])]%nat 1%nat 5%nat = [1; 0]%nat /\
-  snd (JoinStepCollection_add [((0, (0, 1)), [])]%nat (4, (1, 2))%nat) = [((0, (0, 1)), []); ((4, (1, 2)), [1; 0])]%nat.
+  snd (JoinStepCollection_add [((0, (0, 1)), [])]%nat (4, (1, 2))%nat) = [((0, (0, 1)), []); ((4, (1, 2)), [1; 0])]%nat /\
+  (* link 0 (frameworks 0 -> 1) has to come before link 4 (frameworks 1 -> 2): order = {4: {0}} *)
+  PlannerL.t_order (snd (LinkTrekker_order_links_by_frameworks (fun s => (Ok tt, s))
+    {| PlannerL.t_data := [((0, (0, 1)), [9]); ((4, (1, 2)), [9])]%nat; PlannerL.t_dor := []; PlannerL.t_order := [] |}))
+  = [(4, [0])]%nat /\
+  (* {8: {4}, 4: {0}} is turned round: 4 is a dependent of a later entry *)
+  PlannerL.t_order (snd (LinkTrekker_order_ordered_ids_by_relation
+    {| PlannerL.t_data := []; PlannerL.t_dor := []; PlannerL.t_order := [(4, [0]); (8, [4])]%nat |}))
+  = [(8, [4]); (4, [0])]%nat.
 Proof. vm_compute. repeat split. Qed.
